@@ -325,7 +325,7 @@ let cmd_engine (args : sx list) : sx =
       let tgt = tgt @ (if want 'u' then
          let sl = compute_slab (char_ceqb N.eqb) (char_refutes N.eqb) a in
          [A "slab"; bool_sx (slab_ok (char_ceqb N.eqb) (char_refutes N.eqb) a sl); A "unamb"; bool_sx (cert_unamb (char_ceqb N.eqb) (char_refutes N.eqb) a sl);
-          A "vdet"; bool_sx (accept_vdet a sl); A "eroot"; bool_sx (empty_keys_at_root a); A "esc"; bool_sx (empty_scope_closed a)] else []) in
+          A "vdet"; bool_sx (accept_vdet a sl); A "eroot"; bool_sx (empty_keys_at_root a && empty_pattern_keys a cs); A "esc"; bool_sx (empty_scope_closed a)] else []) in
       L (wf @ snd_ @ cpl @ tgt)
   | [A "cert"; A "mat"; A which; aut; pats; present] ->
       let a = sx_automaton sx_mkey (sx_ccons sx_mkey) aut in
